@@ -67,7 +67,11 @@ func genC16(kind int) func(g *Gen, tier string) *Case {
 				ops = append(ops, fwd(2, TL(TNi(cmsUpdate), TNi(0), TBs(e), TNu(c), TNi(0))), fwd(2, TL(TNi(cmsUpdate), TNi(1), TBs(e), TNu(c), TNi(0))))
 			}
 			cx, cy := g.cmsCount(), g.cmsCount()
-			ops = append(ops, TL(TNi(2), TL(TBs(x), TNu(cx)), TL(TBs(y), TNu(cy)), g.schedule()))
+			pairOp := TL(TNi(2), TL(TBs(x), TNu(cx)), TL(TBs(y), TNu(cy)), g.schedule())
+			if g.Chance(0.4) { // two goroutines sharing one handle
+				pairOp = TL(append(append([]Tok(nil), pairOp.L...), TNi(1))...)
+			}
+			ops = append(ops, pairOp)
 			ops = append(ops, fwd(2, TL(TNi(cmsUpdate), TNi(1), TBs(x), TNu(cx), TNi(0))), fwd(2, TL(TNi(cmsUpdate), TNi(1), TBs(y), TNu(cy), TNi(0))))
 			for _, e := range pool[:4] {
 				ops = append(ops, fwd(2, TL(TNi(cmsCount), TNi(0), TBs(e), TNi(0))), fwd(2, TL(TNi(cmsCount), TNi(1), TBs(e), TNi(0))))
@@ -109,6 +113,34 @@ func genC16(kind int) func(g *Gen, tier string) *Case {
 			ops = append(ops, TL(TNi(2), TL(TBs(x), TNu(uint64(5+g.Intn(20)))), TL(TBs(y), TNu(uint64(5+g.Intn(40)))), g.schedule()))
 			ops = append(ops, fwd(5, TL(TNi(tkValues), TNi(0))), fwd(5, TL(TNi(tkHeap), TNi(0))))
 		}
+		if g.Chance(0.2) {
+			// variant: instead of a second update, the other client obtains a new handle from the
+			// metadata key while the update is in flight
+			for p, op := range ops {
+				if op.L[0].I() != 2 {
+					continue
+				}
+				ca := op.L[1].L
+				var upd Tok
+				switch kind {
+				case 1:
+					upd = TL(TNi(blInsert), TNi(0), ca[0], TNi(0))
+				case 2:
+					upd = TL(TNi(cmsUpdate), TNi(0), ca[0], ca[1], TNi(0))
+				case 3:
+					upd = TL(TNi(hlUpdate), TNi(0), ca[0])
+				case 4:
+					upd = ckInsertOp(g, 0, ca[0].B, false)
+				case 5:
+					upd = TL(TNi(tkInsert), TNi(0), ca[0], ca[1])
+				}
+				ops[p] = TL(TNi(3), upd, op.L[3])
+				if kind <= 3 && p+2 < len(ops) { // the sequential twin receives the one update only
+					ops = append(ops[:p+2], ops[p+3:]...)
+				}
+				break
+			}
+		}
 		return &Case{Ops: ops}
 	}
 }
@@ -124,8 +156,8 @@ func schedOpName(op Tok) string {
 }
 
 // monitorSched: acknowledged concurrent updates must not be lost.
-func monitorSched(kind int) Monitor {
-	return func(ops, obs []Tok) []MonViolation {
+func monitorSched(kind int) OMonitor {
+	return func(orig, ops, obs []Tok) []MonViolation {
 		var out []MonViolation
 		roomForBoth := "" // cuckoo: every bucket had >= 2 free slots before the pair (the known one-slot race cannot occur)
 		inserted := map[string]uint64{}
@@ -136,6 +168,12 @@ func monitorSched(kind int) Monitor {
 		var px, py []byte
 		for step, op := range ops {
 			a, o := op.L, obs[step]
+			if step < len(orig) && orig[step].L[0].I() == 3 {
+				// an update that ran while another client was attaching: from here on a loss cannot
+				// be the recorded race between two inserts
+				pairSeen = true
+				roomForBoth = "/during-attach"
+			}
 			switch a[0].I() {
 			case 0:
 				in := a[2].L
